@@ -76,6 +76,7 @@ func genCfg() *hist.GenCfg {
 		Drain:     4,
 		OverIdx:   1,
 		BadMerge:  2,
+		Structs:   1,
 	}
 }
 
@@ -697,6 +698,7 @@ func runCase(c Case, r *runlog.R) error {
 				r.Class("merge source representation: " + k)
 			}
 		}
+		r.ClassIf(op.Kind == hist.SetChild && op.From == hist.FromStruct && info.Skipped == "", "setchild of a config built from Go struct representations")
 		r.ClassIf(info.SrcSide, "write on the source side of an earlier merge from a *Config")
 		r.ClassIf(info.DstSide, "write into what an earlier merge from a *Config copied in")
 		if info.SrcSide || info.DstSide {
@@ -718,6 +720,7 @@ func runCase(c Case, r *runlog.R) error {
 	r.ClassIf(afterCfgMerge, "history writes on either side after a merge from a *Config")
 	r.ClassIf(emptied, "history empties a list by removals")
 	r.ClassIf(st.LooseEmpty, "history where an empty list met a nil or a node without list part (IsArray() = false not asserted from then on)")
+	r.ClassIf(c.InitRepr, "initial tree (NewFrom) in Go struct representations")
 	r.ClassIf(c.PathSep, "with PathSep")
 	r.ClassIf(c.PathSep && c.Sep != "", "with PathSep other than \".\": "+c.Sep)
 	r.ClassIf(!c.PathSep, "without PathSep")
